@@ -55,6 +55,18 @@ def start_model():
                    notes=[A.sticky('n', 'sticky')], project=A.project('p', [['k', 'v']], note='pn'))
 
 
+def c10_model():
+    """the start model of this check: as start_model(), but the many-to-many reference is *constructed* with inline=True (written as
+    `ref: <> s.c.id` in the column's settings on the parsed route); the flag has no effect until the reference's type is edited"""
+    m = start_model()
+    m['refs'][2]['inline'] = True
+    # keep the model's reference order equal to the order the parser produces (document order: the inline references of table a,
+    # then those of table b, then the standalone ones), so that refs[i] means the same reference on both routes
+    r = m['refs']
+    m['refs'] = [r[2], r[0], r[1], r[3]]
+    return m
+
+
 # ------------------------------------------------------------------------------------------------
 # edits: (name, live(db), model(m)).  Positions are indices; edits never reorder.
 
@@ -212,6 +224,16 @@ def e_moved_note(ti, text):
     return (f'tables[{ti}].note=<Note taken from a discarded table>', live, model)
 
 
+def e_note_text_inplace(ti, text):
+    """edit the text of the table's existing Note object in place (the placeholder note of a table declared without one, too)"""
+    def live(db):
+        db.tables[ti].note.text = text
+
+    def model(m):
+        m['tables'][ti]['note'] = text
+    return (f'tables[{ti}].note.text={text!r}', live, model)
+
+
 def e_table_attr(ti, attr, val):
     def live(db):
         setattr(db.tables[ti], attr, val)
@@ -365,6 +387,8 @@ def _edits():
     E.append(e_ref_attr(3, 'inline', True))
     E.append(e_ref_attr(2, 'inline', True))         # asked for while the reference is <> (no effect yet); matters once its type changes
     E.append(e_moved_note(1, 'moved note'))
+    E.append(e_note_text_inplace(1, 'typed into the placeholder note'))
+    E.append(e_note_text_inplace(0, 'edited in place'))
     E.append(e_ref_attr(1, 'name', None))
     E.append(e_ref_attr(3, 'name', 'named'))
     E.append(e_ref_attr(1, 'on_delete', 'cascade'))
@@ -439,7 +463,7 @@ _PARSED = None
 
 
 def start_db(route):
-    m = start_model()
+    m = c10_model()
     if route == 'api':
         return builder.build(m)
     from pydbml import PyDBML
@@ -458,7 +482,7 @@ def run_history(route, hist, mode):
     """-> (diffs list, info).  mode: 'render' = every rendering evaluated after each edit; 'dbonly' = db.sql and db.dbml
     after each edit; 'none' = nothing rendered until the end."""
     db = start_db(route)
-    m = start_model()
+    m = c10_model()
     if mode != 'none':
         renderings(db) if mode == 'render' else (db.sql, db.dbml)
     for k in hist:
